@@ -25,6 +25,18 @@ def run(ctx):
         if rr is None or "crash" in rr or "exc" in rr or not rr["ok"]:
             ctx.violation({"part": "variable_window_radii", "seed": j["seed"]}, {"job": j, "result": rr})
     ctx.sample({"table": items[3]["table"], "result": items[3]["result"]})
+    # utils.sparse_collapse
+    r = tlc.run_tlc("Collapse", dict(N=3, NLab=3, MaxVal=1, EMIT=True), invariants=["Conserves", "KeepsSymmetry", "IdentityWhenDistinct", "EmitInv"],
+                    workers=1, timeout=3000, heap="6g")
+    ctx.add_tlc(r, "Collapse.tla")
+    ctx.tlc_violation(r, "Collapse")
+    citems = r.prints
+    ctx.log("collapse instances:", len(citems))
+    for it, rr in zip(citems, pool_map("extra", "collapse", citems, min_chunk=500)):
+        ctx.evaluations += 1
+        ctx.traces += 1
+        if rr is None or "crash" in rr or "exc" in rr or not rr["ok"]:
+            ctx.violation({"part": "sparse_collapse", "mat": it["mat"], "lab": it["lab"]}, {"item": it, "result": rr})
     return ctx.finish(level="model_checking", rule="extra specifications: one case per table enumerated from Categorical.tla")
 
 
